@@ -410,7 +410,7 @@ func (a *Ctx) CombineViews(b *Ctx) {
 			continue
 		}
 		o.Detail = o.Detail + " [inlined view]"
-		if o.Verdict == Violation && os.Getenv("GMSL_INLINE_ADD") == "" && !a.InlinedReports[group(o.Rule)] {
+		if o.Verdict == Violation && os.Getenv("GMSL_INLINE_ADD") == "" && !a.InlinedReports[group(o.Rule)] && !a.InlinedReports[group(o.Rule)+"|"+o.Construct] {
 			// the inlined view only ever rescues: a report needs the construct as written
 			o.Verdict = Undecided
 			o.Detail = "reported on the inlined view only: " + o.Detail
